@@ -59,7 +59,7 @@ def scenario(big: bool = False) -> Any:
         return d
 
     # a few payloads the worker skips (malformed bytes delivered as plain bytes, incl. short ones such as b"-1" / b"")
-    msg = cm.message(kinds=("async", "async", "async", "async", "async", "bad"), outs=("ret", "ret", "ValueError", "NoResult"), acks=("sync", "sync", "sync", "async", "async", "future", "deferred", "sync_fail", "async_fail"),
+    msg = cm.message(kinds=("async", "async", "async", "async", "async", "bad"), outs=("ret", "ret", "ValueError", "NoResult"), acks=("sync", "sync", "sync", "async", "async", "future", "deferred", "sync_fail", "async_fail", "cancelled_future"),
                      durs=(0.0, 0.05, 0.3, 1.0, 4.0, "never"), at=cm.times(60), cleanups=(0, 0, 0, 0.2), timeouts=(None, None, None, 0.3))
     return st.fixed_dictionaries({
         "A": st.integers(1, 5 if big else 3), "P": st.integers(0, 4 if big else 2),
